@@ -27,13 +27,11 @@ def eval_http_middleware(prog):
     it = rseval.Interp(prog)
     it.lenient = True
     enable = z3.Bool("enable_auth")
-    path = z3.String("path")
     hdr_tok, qry_tok, body_tok = z3.String("header_token"), z3.String("query_token"), z3.String("body_token")
     has_hdr, has_qry = z3.Bool("has_header_token"), z3.Bool("has_query_token")
     used = {"token": None}
 
-    request = Struct("ServiceRequest", {})
-    it.models[("ServiceRequest", "path")] = lambda interp, recv, args: path
+    request = request_model(it)
     it.fn_models["header_token"] = lambda interp, args: Some(hdr_tok) if interp.branch(has_hdr) else NONE
 
     def from_str(interp, args):
@@ -87,23 +85,41 @@ def eval_http_middleware(prog):
         if exc is not None:
             raise rsparse.Unsupported("panic in middleware evaluation: %s" % exc)
     forward = z3.Or(*fwd) if fwd else z3.BoolVal(False)
-    syms = dict(enable=enable, path=path, hdr_tok=hdr_tok, qry_tok=qry_tok, body_tok=body_tok, has_hdr=has_hdr, has_qry=has_qry)
+    syms = dict(enable=enable, raw_path=RAW, routed_path=ROUTED, hdr_tok=hdr_tok, qry_tok=qry_tok, body_tok=body_tok, has_hdr=has_hdr, has_qry=has_qry)
     return forward, syms, sorted(it.opaque_seen), npaths, it.queries
 
 
-def check_path_formula(prog, path):
-    """is_check_path as the middleware computes it with auth enabled: evaluated from the let-initialiser"""
+RAW = z3.String("raw_path")        # request.path(): the raw request path
+ROUTED = z3.String("routed_path")  # request.match_info().as_str(): the requoted path the router matches
+
+
+def request_model(it):
+    request = Struct("ServiceRequest", {})
+    it.models[("ServiceRequest", "path")] = lambda interp, recv, args: RAW
+    it.models[("ServiceRequest", "match_info")] = lambda interp, recv, args: Struct("MatchInfo", {})
+    it.models[("MatchInfo", "as_str")] = lambda interp, recv, args: ROUTED
+    it.models[("MatchInfo", "unprocessed")] = lambda interp, recv, args: ROUTED
+    return request
+
+
+def check_path_formula(prog, path=None):
+    """is_check_path as the middleware computes it with auth enabled, evaluated from its let-initialisers; returns the
+    formula over RAW / ROUTED (whichever the middleware reads) - or over `path` when given (validation)"""
     fn = prog.trait_method("ApiCheckAuthMiddleware", "call", "Service")
     init = find_let(fn[3], "is_check_path")
-    if init is None:
-        raise rsparse.Unsupported("let is_check_path not found in ApiCheckAuthMiddleware::call")
+    pinit = find_let(fn[3], "path")
+    if init is None or pinit is None:
+        raise rsparse.Unsupported("let path / let is_check_path not found in ApiCheckAuthMiddleware::call")
     it = rseval.Interp(prog)
     it.cur_file.append(prog.item_file.get(id(fn)))
     env = rseval.Env()
     env.define("enable_auth", True)
-    env.define("path", path)
+    env.define("request", request_model(it))
+    env.define("req", env.lookup("request"))
+    pv = it.eval(pinit, env) if path is None else path
+    env.define("path", pv)
     v = it.eval(init, env)
-    return rseval.to_bool(v)
+    return rseval.to_bool(v), pv
 
 
 def find_let(node, name):
@@ -148,10 +164,13 @@ def run(tier, seed):
           "queries": 0, "solver_s": 0.0, "distinct": 0}
     try:
         res, flags, q = routes.extract(prog, "app_config", ["enable_no_auth_console", "openapi_enable_auth"])
-        path = z3.String("path")
-        chk = check_path_formula(prog, path)
-        under = z3.Or(z3.PrefixOf(z3.StringVal("/nacos/"), path), z3.PrefixOf(z3.StringVal("/rnacos/v1/"), path))
-        not_exempt = z3.And(*[path != z3.StringVal(e) for e in EXEMPT])
+        chk, psym = check_path_formula(prog)
+        uses_raw = psym is RAW
+        if psym is not RAW and psym is not ROUTED:
+            raise rsparse.Unsupported("the middleware's `path` is neither request.path() nor request.match_info().as_str(): %r" % (psym,))
+        path = psym
+        # RAW is what request.path() returns (what request.path() returns); the router matches the requoted path, so a route is
+        # reached by every percent-encoded spelling of its pattern (actix DEFAULT_QUOTER keeps only % / + encoded)
         n_routes = 0
         seen = set()
         verdict = "discharged"
@@ -170,15 +189,17 @@ def run(tier, seed):
                 if pat in seen:
                     continue
                 seen.add(pat)
+                if not (pat.startswith("/nacos/") or pat.startswith("/rnacos/v1/")) or pat in EXEMPT:
+                    continue
                 n_routes += 1
                 s.push()
-                s.add(z3.InRe(path, routes.pattern_to_re(pat)), under, not_exempt, z3.Not(chk))
+                s.add(z3.InRe(path, routes.pattern_to_re(pat, raw=uses_raw)), z3.Not(chk))
                 r = solve(s, timer)
                 if r == z3.sat:
                     w = s.model().eval(path, model_completion=True).as_string()
                     ob.update({"verdict": "violation", "message": "route %s (%s %s) reaches its handler on path %r without the auth check" % (pat, method, handler, w),
                                "counterexample": {"route": pat, "path": w}, "tags": ["unchecked-route"],
-                               "cases": [{"kind": "route_match", "route": pat, "path": w, "expect": True}, {"kind": "api_check_path", "path": w, "expect": False}]})
+                               "cases": [{"kind": "route_match_requoted", "route": pat, "path": w, "expect": True}, {"kind": "api_check_path", "path": w, "expect": False}] if uses_raw else []})
                     verdict = "violation"
                     s.pop()
                     break
@@ -226,7 +247,7 @@ def run(tier, seed):
           "queries": 0, "solver_s": 0.0, "distinct": 0}
     try:
         forward, sy, opaque, npaths, q = eval_http_middleware(prog)
-        chk = check_path_formula(prog, sy["path"])
+        chk, _psym = check_path_formula(prog)
         s = z3.Solver()
         s.set("timeout", 60000)
         presented = z3.Or(z3.And(sy["has_hdr"], sy["hdr_tok"] != z3.StringVal(""), valid_token(sy["hdr_tok"])),
@@ -284,7 +305,7 @@ def validate(prog, seed, k):
     try:
         rnd = random.Random(seed)
         path = z3.String("path")
-        chk = check_path_formula(prog, path)
+        chk, _p = check_path_formula(prog, path)
         res, flags, q = routes.extract(prog, "app_config", ["enable_no_auth_console", "openapi_enable_auth"])
         pats = sorted({p for pc, rts in res for (p, m, h) in rts})
         cases = []
